@@ -313,7 +313,7 @@ Proof. rewrite <- (app_nil_r a) at 1. apply Subseq_app; [apply Subseq_refl|apply
 (* the conservation law of one (subscriber, listener) pair                    *)
 (* ======================================================================== *)
 Section Law.
-Variables (i : nat) (l : lid) (key : string).
+Context (i : nat) (l : lid) (key : string).
 
 Definition is_cur (x : sub) : bool := match cur x with Some c => N.eqb c l | None => false end.
 Definition pend_infl (x : sub) : list msg :=
@@ -641,7 +641,7 @@ Proof.
 Qed.
 
 (* ---- the tracked registration: l stays registered on subscriber i ---------- *)
-Variable knd : kind.
+Context (knd : kind).
 
 Definition Good (t : st) : Prop :=
   WF t /\ exists x, nth_error (subs t) i = Some x /\ skind x = knd /\
